@@ -262,3 +262,224 @@ Proof.
   rewrite (undo_element_mono s' _ _ _ _ _ L Ur) in U3.
   cbn [bind] in U3. congruence.
 Qed.
+
+(* --------------------------- same element, same text, in any later document *)
+Definition flat_covP (fmt : list str) (c : xtree) : Prop :=
+  forall s s' txt mk, flat_kid fmt s c = (s', txt, mk) -> ph_inv s ->
+    fcov fmt (t2p s') c = true /\ txt = enc fmt (t2p s') c.
+
+Lemma flat_kids_cov_of : forall fmt ks, Forall (flat_covP fmt) ks ->
+  forall s s' txt mk, flat_kids fmt s ks = (s', txt, mk) -> ph_inv s ->
+    forallb (fcov fmt (t2p s')) ks = true /\ txt = enc_kids fmt (t2p s') ks.
+Proof.
+  intros fmt ks F. induction F as [|k ks Hk _ IH]; intros s s' txt mk E I; cbn [flat_kids] in E.
+  - inversion E; subst. auto.
+  - destruct (flat_kid fmt s k) as [[s1 t1] m1] eqn:E1. destruct (flat_kids fmt s1 ks) as [[s2 t2] m2] eqn:E2.
+    inversion E; subst. clear E.
+    destruct (Hk _ _ _ _ E1 I) as (F1 & T1).
+    destruct (flat_kid_ok _ _ _ _ _ _ E1 I) as [I1 X1].
+    destruct (IH _ _ _ _ E2 I1) as (F2 & T2).
+    destruct (flat_kids_ok _ _ _ _ _ _ E2 I1) as [I2 X2].
+    destruct (fcov_mono fmt _ _ k (ext_kext _ _ X2) F1) as [F1' T1'].
+    split.
+    + cbn [forallb]. rewrite F1', F2. reflexivity.
+    + unfold enc_kids. cbn [map concat]. rewrite T1'. subst. reflexivity.
+Qed.
+
+Lemma flat_kid_cov : forall fmt c, flat_covP fmt c.
+Proof.
+  intros fmt c. induction c as [tag attrs text tail kids IH] using xtree_ind2. intros s s' txt mk E I.
+  rewrite flat_kid_unfold in E. cbv zeta in E. cbn [fcov enc]. cbv zeta. destruct (mem tag fmt).
+  - destruct (gp s _ _ TClose None) as [[s1 phc] m1] eqn:G1.
+    destruct (gp s1 _ _ TOpen (Some phc)) as [[s2 pho] m2] eqn:G2.
+    destruct (flat_kids fmt s2 kids) as [[s3 inner] mk3] eqn:E3. inversion E; subst. clear E.
+    destruct (gp_ok _ _ _ _ _ _ _ _ G1 I) as [I1 X1].
+    destruct (gp_ok _ _ _ _ _ _ _ _ G2 I1) as [I2 X2].
+    destruct (flat_kids_ok _ _ _ _ _ _ E3 I2) as [I3 X3].
+    destruct (flat_kids_cov_of fmt kids IH _ _ _ _ E3 I2) as (F3 & T3).
+    pose proof (gp_bound _ _ _ _ _ _ _ _ G1) as L1. pose proof (gp_bound _ _ _ _ _ _ _ _ G2) as L2.
+    apply (ext_kext _ _ X2) in L1. apply (ext_kext _ _ X3) in L1. apply (ext_kext _ _ X3) in L2.
+    unfold phd. rewrite L1, L2. split; [exact F3|]. subst. reflexivity.
+  - destruct (gp s _ _ TSingle None) as [[s1 ph] miss] eqn:G1. inversion E; subst. clear E.
+    pose proof (gp_bound _ _ _ _ _ _ _ _ G1) as L1. unfold phd. rewrite L1. split; reflexivity.
+Qed.
+
+(* when every key is bound already, do_element allocates nothing and writes the bound placeholders *)
+Lemma flat_kid_hits : forall fmt c s, fcov fmt (t2p s) c = true ->
+  exists mk, flat_kid fmt s c = (s, enc fmt (t2p s) c, mk).
+Proof.
+  intros fmt c. induction c as [tag attrs text tail kids IH] using xtree_ind2. intros s FC.
+  rewrite flat_kid_unfold. cbv zeta. cbn [fcov enc] in *. cbv zeta in *. destruct (mem tag fmt).
+  - destruct (t2p_get (t2p s) (knorm (XNode tag attrs text [] kids), TClose, None)) as [phc|] eqn:L1; [|discriminate].
+    destruct (t2p_get (t2p s) (knorm (XNode tag attrs text [] kids), TOpen, Some phc)) as [pho|] eqn:L2; [|discriminate].
+    rewrite (gp_hit _ _ _ _ _ _ L1), (gp_hit _ _ _ _ _ _ L2). unfold phd. rewrite L1, L2.
+    assert (K : exists mk, flat_kids fmt s kids = (s, concat (map (enc fmt (t2p s)) kids), mk)).
+    { clear L1 L2. induction IH as [|k ks Hk _ IHks]; cbn [flat_kids map concat forallb] in *; [eauto|].
+      apply andb_true_iff in FC. destruct FC as [F1 F2]. destruct (Hk s F1) as [m1 E1]. destruct (IHks F2) as [m2 E2].
+      rewrite E1, E2. eauto. }
+    destruct K as [mk K]. rewrite K. eauto.
+  - destruct (t2p_get (t2p s) (knorm (XNode tag attrs text [] kids), TSingle, None)) as [ph|] eqn:L1; [|discriminate].
+    rewrite (gp_hit _ _ _ _ _ _ L1). unfold phd. rewrite L1. eauto.
+Qed.
+Lemma flat_kids_hits : forall fmt ks s, forallb (fcov fmt (t2p s)) ks = true ->
+  exists mk, flat_kids fmt s ks = (s, enc_kids fmt (t2p s) ks, mk).
+Proof.
+  intros fmt ks s. induction ks as [|k ks IH]; cbn [flat_kids forallb]; intro FC; [unfold enc_kids; cbn; eauto|].
+  apply andb_true_iff in FC. destruct FC as [F1 F2]. destruct (flat_kid_hits fmt k s F1) as [m1 E1].
+  destruct (IH F2) as [m2 E2]. rewrite E1, E2. unfold enc_kids. cbn [map concat]. eauto.
+Qed.
+
+(* The children of a text element that do_element has replaced by placeholders
+   once are replaced by the very same string, allocating nothing, whenever they
+   are met again -- in any later document, whatever the maker did in between. *)
+Theorem same_text_thm : forall tt fmt s ks s1 txt mk ops,
+  ph_inv s -> flat_kids fmt s ks = (s1, txt, mk) ->
+  let s2 := fold_left (ph_step tt fmt) ops s1 in
+  exists mk', flat_kids fmt s2 ks = (s2, txt, mk').
+Proof.
+  intros tt fmt s ks s1 txt mk ops I E s2.
+  destruct (flat_kids_cov_of fmt ks (proj2 (Forall_forall _ _) (fun c _ => flat_kid_cov fmt c)) _ _ _ _ E I) as [FC T].
+  destruct (flat_kids_ok _ _ _ _ _ _ E I) as [I1 X1].
+  destruct (fold_ok tt fmt ops s1 I1) as [I2 X2]. fold s2 in I2, X2.
+  destruct (fcov_kids_mono fmt _ _ ks (ext_kext _ _ X2) FC) as [FC2 T2].
+  destruct (flat_kids_hits fmt ks s2 FC2) as [mk' H]. exists mk'. rewrite H, T2, T. reflexivity.
+Qed.
+
+(* ------------------------- the round trip needs more than the table invariants *)
+Definition wit_b : xtree := XNode [98] [] None [] [XNode [105] [] None [] []].        (* <b><i/></b> *)
+Definition wit_T : xtree := XNode [112] [] None [] [wit_b].                              (* <p><b><i/></b></p> *)
+Definition wit_s : state :=
+  fold_left (ph_step [[112]] [[98]]) [OpGet wit_b TClose None; OpGet wit_b TOpen (Some 57351)] ph_init.
+
+Theorem roundtrip_ph_inv_only_refuted :
+  exists tt fmt s T, ph_inv s /\ no_pua T /\ room tt fmt s T /\
+    exists T2, undo_tree (fst (do_tree tt fmt s T)) (snd (do_tree tt fmt s T)) = Ok T2 /\ ~ tree_equiv T2 T.
+Proof.
+  exists [[112]], [[98]], wit_s, wit_T. split; [apply (fold_ok [[112]] [[98]] _ ph_init ph_inv_init)|].
+  split; [reflexivity|]. split; [vm_compute; discriminate|].
+  eexists. split; [vm_compute; reflexivity|]. vm_compute. discriminate.
+Qed.
+
+(* ------------------------------------- room: two placeholders per element *)
+Fixpoint rcount (fmt : list str) (c : xtree) : nat :=
+  match c with
+  | XNode tag _ _ _ kids => S (if mem tag fmt then list_sum (map (rcount fmt) kids) else 0)
+  end.
+Fixpoint dwcost (tt fmt : list str) (post : bool) (t : xtree) : nat :=
+  match t with
+  | XNode tag _ _ _ kids =>
+    let live :=
+      if mem tag tt then
+        match kids with
+        | [] => O
+        | _ :: _ => (list_sum (map (rcount fmt) kids) + list_sum (map (dwcost tt fmt true) kids))%nat
+        end
+      else list_sum (map (dwcost tt fmt false) kids) in
+    if post then if mem tag fmt then list_sum (map (dwcost tt fmt true) kids) else live else live
+  end.
+
+Lemma lsum_cons : forall a l, list_sum (a :: l) = (a + list_sum l)%nat.
+Proof. reflexivity. Qed.
+
+Lemma flat_kids_ctr_of : forall fmt ks,
+  Forall (fun c => forall s s' txt mk, flat_kid fmt s c = (s', txt, mk) -> ctr s' <= ctr s + 2 * N.of_nat (rcount fmt c)) ks ->
+  forall s s' txt mk, flat_kids fmt s ks = (s', txt, mk) -> ctr s' <= ctr s + 2 * N.of_nat (list_sum (map (rcount fmt) ks)).
+Proof.
+  intros fmt ks F. induction F as [|k ks Hk _ IH]; intros s s' txt mk E; cbn [flat_kids] in E.
+  - inversion E; subst. cbn. lia.
+  - destruct (flat_kid fmt s k) as [[s1 t1] m1] eqn:E1. destruct (flat_kids fmt s1 ks) as [[s2 t2] m2] eqn:E2.
+    inversion E; subst. specialize (Hk _ _ _ _ E1). specialize (IH _ _ _ _ E2). cbn [map]. rewrite lsum_cons. lia.
+Qed.
+Lemma flat_kid_ctr : forall fmt c s s' txt mk, flat_kid fmt s c = (s', txt, mk) -> ctr s' <= ctr s + 2 * N.of_nat (rcount fmt c).
+Proof.
+  intros fmt c. induction c as [tag attrs text tail kids IH] using xtree_ind2. intros s s' txt mk E.
+  rewrite flat_kid_unfold in E. cbv zeta in E. cbn [rcount]. destruct (mem tag fmt).
+  - destruct (gp s _ _ TClose None) as [[s1 phc] m1] eqn:G1.
+    destruct (gp s1 _ _ TOpen (Some phc)) as [[s2 pho] m2] eqn:G2.
+    destruct (flat_kids fmt s2 kids) as [[s3 inner] mk3] eqn:E3. inversion E; subst.
+    pose proof (gp_ctr _ _ _ _ _ _ _ _ G1). pose proof (gp_ctr _ _ _ _ _ _ _ _ G2).
+    pose proof (flat_kids_ctr_of fmt kids IH _ _ _ _ E3). lia.
+  - destruct (gp s _ _ TSingle None) as [[s1 ph] miss] eqn:G1. inversion E; subst.
+    pose proof (gp_ctr _ _ _ _ _ _ _ _ G1). lia.
+Qed.
+Lemma flat_kids_ctr : forall fmt ks s s' txt mk, flat_kids fmt s ks = (s', txt, mk) ->
+  ctr s' <= ctr s + 2 * N.of_nat (list_sum (map (rcount fmt) ks)).
+Proof. intros fmt ks. apply flat_kids_ctr_of. apply Forall_forall. intros c _. apply flat_kid_ctr. Qed.
+
+Definition dw_ctrP (tt fmt : list str) (t : xtree) : Prop :=
+  forall post s marks s' mk' t', dw tt fmt post s marks t = (s', mk', t') -> ctr s' <= ctr s + 2 * N.of_nat (dwcost tt fmt post t).
+
+Lemma dw_post_kids_ctr_of : forall tt fmt ks, Forall (dw_ctrP tt fmt) ks ->
+  forall s mk s' mk', dw_post_kids tt fmt s mk ks = (s', mk') -> ctr s' <= ctr s + 2 * N.of_nat (list_sum (map (dwcost tt fmt true) ks)).
+Proof.
+  intros tt fmt ks F. induction F as [|k ks Hk _ IH]; intros s mk s' mk' E; cbn [dw_post_kids] in E.
+  - inversion E; subst. cbn. lia.
+  - destruct (dw tt fmt true s mk k) as [[s1 mk1] k'] eqn:E1. specialize (Hk _ _ _ _ _ _ E1). specialize (IH _ _ _ _ E).
+    cbn [map]. rewrite lsum_cons. lia.
+Qed.
+Lemma dw_live_kids_ctr_of : forall tt fmt ks, Forall (dw_ctrP tt fmt) ks ->
+  forall s s' ks', dw_live_kids tt fmt s ks = (s', ks') -> ctr s' <= ctr s + 2 * N.of_nat (list_sum (map (dwcost tt fmt false) ks)).
+Proof.
+  intros tt fmt ks F. induction F as [|k ks Hk _ IH]; intros s s' ks' E; cbn [dw_live_kids] in E.
+  - inversion E; subst. cbn. lia.
+  - destruct (dw tt fmt false s [] k) as [[s1 mk1] k'] eqn:E1. destruct (dw_live_kids tt fmt s1 ks) as [s2 r] eqn:E2.
+    inversion E; subst. specialize (Hk _ _ _ _ _ _ E1). specialize (IH _ _ _ E2). cbn [map]. rewrite lsum_cons. lia.
+Qed.
+Lemma store_final_ctr : forall s c0 t', ctr (store_final s c0 t') = ctr s.
+Proof. intros. unfold store_final. destruct (t2p_get (t2p s) _); reflexivity. Qed.
+
+Lemma dw_ctr : forall tt fmt t, dw_ctrP tt fmt t.
+Proof.
+  intros tt fmt t. induction t as [tag attrs text tail kids IH] using xtree_ind2.
+  assert (LIVE : forall s tail' s' t', dw_live tt fmt s tag attrs text tail' kids = (s', t') ->
+            ctr s' <= ctr s + 2 * N.of_nat (if mem tag tt then match kids with [] => O | _ :: _ =>
+                 (list_sum (map (rcount fmt) kids) + list_sum (map (dwcost tt fmt true) kids))%nat end
+               else list_sum (map (dwcost tt fmt false) kids))).
+  { intros s tail' s' t' E. unfold dw_live in E. destruct (mem tag tt).
+    - destruct kids as [|k0 ks0]; [inversion E; subst; lia|].
+      destruct (flat_kids fmt s (k0 :: ks0)) as [[s1 txt1] mk] eqn:E1.
+      destruct (dw_post_kids tt fmt s1 mk (k0 :: ks0)) as [s2 mk2] eqn:E2. inversion E; subst.
+      pose proof (flat_kids_ctr _ _ _ _ _ _ E1). pose proof (dw_post_kids_ctr_of tt fmt _ IH _ _ _ _ E2). lia.
+    - destruct (dw_live_kids tt fmt s kids) as [s1 kids'] eqn:E1. inversion E; subst.
+      exact (dw_live_kids_ctr_of tt fmt _ IH _ _ _ E1). }
+  intros post s marks s' mk' t' E. rewrite dw_unfold in E. cbn [dwcost]. cbv zeta.
+  destruct post; [destruct (mem tag fmt)|].
+  - destruct (dw_post_kids tt fmt s marks kids) as [s1 mk1] eqn:E1. inversion E; subst.
+    exact (dw_post_kids_ctr_of tt fmt _ IH _ _ _ _ E1).
+  - destruct (dw_live tt fmt s tag attrs text [] kids) as [s1 t1] eqn:E1. specialize (LIVE _ _ _ _ E1).
+    destruct marks as [|[|] rest]; inversion E; subst; try rewrite store_final_ctr; exact LIVE.
+  - destruct (dw_live tt fmt s tag attrs text tail kids) as [s1 t1] eqn:E1. inversion E; subst. exact (LIVE _ _ _ _ E1).
+Qed.
+
+Lemma list_sum_le : forall (f g : xtree -> nat) ks, Forall (fun k => (f k <= g k)%nat) ks ->
+  (list_sum (map f ks) <= list_sum (map g ks))%nat.
+Proof. intros f g ks F. induction F; [apply le_n|]. cbn [map]. rewrite !lsum_cons. lia. Qed.
+Lemma list_sum_plus : forall (f g : xtree -> nat) ks,
+  (list_sum (map f ks) + list_sum (map g ks) = list_sum (map (fun k => f k + g k) ks))%nat.
+Proof. intros f g ks. induction ks; [reflexivity|]. cbn [map]. rewrite !lsum_cons. lia. Qed.
+Lemma xsizes_sum : forall ks, xsizes ks = list_sum (map xsize ks).
+Proof. induction ks as [|k ks IH]; cbn [xsizes map]; [reflexivity | rewrite lsum_cons, IH; reflexivity]. Qed.
+
+Lemma cost_bound : forall tt fmt t,
+  (dwcost tt fmt false t + 1 <= xsize t)%nat /\ (dwcost tt fmt true t + rcount fmt t <= xsize t)%nat.
+Proof.
+  intros tt fmt t. induction t as [tag attrs text tail kids IH] using xtree_ind2.
+  rewrite xsize_unfold, xsizes_sum. cbn [dwcost rcount]. cbv zeta.
+  assert (A : (list_sum (map (rcount fmt) kids) + list_sum (map (dwcost tt fmt true) kids) <= list_sum (map xsize kids))%nat).
+  { rewrite list_sum_plus. apply list_sum_le. eapply Forall_impl; [|exact IH]. cbn. intros k [_ H]. lia. }
+  assert (B : (list_sum (map (dwcost tt fmt false) kids) <= list_sum (map xsize kids))%nat).
+  { apply list_sum_le. eapply Forall_impl; [|exact IH]. cbn. intros k [H _]. lia. }
+  assert (L : ((if mem tag tt then match kids with [] => O | _ :: _ =>
+                 (list_sum (map (rcount fmt) kids) + list_sum (map (dwcost tt fmt true) kids))%nat end
+               else list_sum (map (dwcost tt fmt false) kids)) <= list_sum (map xsize kids))%nat).
+  { destruct (mem tag tt); [destruct kids; [cbn; lia | exact A] | exact B]. }
+  split; [lia|]. destruct (mem tag fmt); lia.
+Qed.
+
+(* fewer than (0xF8FF - counter) / 2 elements in the document is room enough *)
+Theorem room_sufficient : forall tt fmt s T,
+  ctr s + 2 * N.of_nat (xsize T) <= PUA_END -> room tt fmt s T.
+Proof.
+  intros tt fmt s T H. unfold room, do_tree. destruct (dw tt fmt false s [] T) as [[s' mk'] T'] eqn:E. cbn [fst].
+  pose proof (dw_ctr tt fmt T _ _ _ _ _ _ E). pose proof (proj1 (cost_bound tt fmt T)). lia.
+Qed.
